@@ -58,6 +58,23 @@ fn byron_addr_bytes(root: &[u8], dp: &Option<Vec<u8>>, magic: Option<u32>) -> Ve
     out
 }
 
+/// The first token of a case line joins the kind with its numeric selectors (`dec:4:3`, `enc:1`, `sign:0`, `wit:2`) so that the
+/// case distribution in the evidence shows every modelled branch; here it is split again.
+fn expand(toks: &[String]) -> Vec<String> {
+    let mut v: Vec<String> = match toks.first() { Some(f) => f.split(':').map(|s| s.to_string()).collect(), None => vec![] };
+    v.extend(toks.iter().skip(1).cloned()); v
+}
+fn compact(case: &str) -> String {
+    let t: Vec<&str> = case.split_whitespace().collect();
+    let n = match t[0] { "dec" => 2, "enc" | "sign" | "wit" => 1, _ => 0 };
+    let head = t[..=n].join(":");
+    if t.len() > n + 1 { format!("{} {}", head, t[n + 1..].join(" ")) } else { head }
+}
+/// observation = class token (`ok` | `err` | `panic`) followed by the fields
+fn classed(obs: String) -> String {
+    if obs == "err" || obs == "panic" || obs.starts_with("harness-") { obs } else { format!("ok {}", obs) }
+}
+
 // ---------------- the implementation on one case ----------------
 fn exec(t: &[&str]) -> String {
     let b = |s: &str| unhex_or_dash(s);
@@ -407,10 +424,10 @@ fn gen(dir: &str) {
         let tv: Vec<&str> = toks.iter().map(|s| s.as_str()).collect();
         let table = tabulate(&tv);
         let toks2 = toks.clone();
-        let res = guarded(move || { let tv: Vec<&str> = toks2.iter().map(|s| s.as_str()).collect(); exec(&tv) });
-        out.emit(&format!("{} | {}", case, table), &res);
+        let res = guarded(move || { let tv: Vec<&str> = toks2.iter().map(|s| s.as_str()).collect(); classed(exec(&tv)) });
+        out.emit(&format!("{} | {}", compact(&case), table), &res);
     };
-    let scale = if thorough { 10 } else { 1 };
+    let scale = if thorough { 30 } else { 3 };
     let lens: [usize; 22] = [0, 1, 27, 28, 29, 31, 32, 33, 59, 60, 61, 63, 64, 65, 95, 96, 97, 127, 128, 129, 130, 200];
 
     // --- enc: every type, valid values and structurally invalid ones ---
@@ -427,6 +444,7 @@ fn gen(dir: &str) {
     for tk in 0..9u64 {
         let sz = size_of(tk);
         for l in lens.iter().chain([sz - 1, sz, sz + 1].iter()) { let v = r.bytes(*l); emit(&mut out, format!("dec {} 0 {}", tk, hx(&v))); }
+        for _ in 0..(3 * scale) { let v = valid_of(tk, &mut r); emit(&mut out, format!("dec {} 0 {}", tk, hx(&v))); emit(&mut out, format!("dec {} 0 {}", tk, hx(&v[..v.len() - 1]))); }
         if tk != 6 {
             for _ in 0..(6 * scale) {
                 let v = valid_of(tk, &mut r); let h = hex::encode(&v);
@@ -501,7 +519,7 @@ fn gen(dir: &str) {
     }
     // --- witnesses ---
     for _ in 0..(30 * scale) {
-        let wk = r.below(4);
+        let wk = r.below(6).min(3);
         let key = match wk { 0 => r.bytes(32), 1 => valid_ext(&mut r), 2 => valid_xprv(&mut r), _ => valid_legacy(&mut r) };
         let dp = if r.chance(1, 2) { "~".to_string() } else { let n = *r.pick(&[0usize, 1, 23, 24, 28, 40, 255, 256]); hx(&r.bytes(n)) };
         let magic = if r.chance(1, 3) { "~".to_string() } else { (*r.pick(&[0u32, 1, 2, 23, 24, 255, 256, 65535, 65536, 764824073, 1097911063, u32::MAX])).to_string() };
@@ -587,16 +605,44 @@ fn main() {
         Some("run") => {
             let mut o = String::new();
             for (idx, toks) in read_cases(&args[2]) {
-                let toks: Vec<String> = toks.into_iter().take_while(|t| t != "|").collect();
-                let res = guarded(move || { let tv: Vec<&str> = toks.iter().map(|s| s.as_str()).collect(); exec(&tv) });
+                let toks: Vec<String> = expand(&toks.into_iter().take_while(|t| t != "|").collect::<Vec<String>>());
+                let res = guarded(move || { let tv: Vec<&str> = toks.iter().map(|s| s.as_str()).collect(); classed(exec(&tv)) });
                 o.push_str(&format!("{} {}\n", idx, res));
             }
             std::fs::write(&args[3], o).unwrap();
         }
         Some("table") => { // print the primitive table of a case given on the command line (for writing corpus cases by hand)
             let tv: Vec<&str> = args[2..].iter().map(|s| s.as_str()).collect();
-            println!("{} | {}", tv.join(" "), tabulate(&tv));
+            println!("{} | {}", compact(&tv.join(" ")), tabulate(&tv));
         }
-        _ => { eprintln!("usage: c12 gen <dir> | run <cases> <out> | table <case tokens…>"); std::process::exit(2); }
+        Some("witnesses") => { // the corpus lines: witnesses of the repaired defects and hand-picked corners, with their tables
+            let hexs = |b: &[u8]| th(&hex::encode(b));
+            let key96: Vec<u8> = { let mut v: Vec<u8> = (0..96u8).collect(); v[0] = 0x08; v[31] = 0x5f; v };
+            let x128 = Bip32PrivateKey::from_bytes(&key96).unwrap().to_128_xprv();
+            let h28 = prim::b32_to_base32(&[7u8; 28]);
+            let mut badpad = h28.clone(); let l = badpad.len() - 1; badpad[l] |= 1;
+            let mut toolong = h28.clone(); toolong.push(0);
+            let ext_hi = { let mut v = vec![0x11u8; 64]; v[31] = 0xff; v };
+            let leg_hi = { let mut v = vec![0x22u8; 96]; v[31] = 0x80; v };
+            let (pw, salt, nonce) = (vec![0x70u8, 0x77], vec![1u8; 32], vec![2u8; 12]);
+            let lines: Vec<String> = vec![
+                format!("dec 4 3 {}", hx(&x128[..127])), format!("dec 4 3 -"), format!("dec 4 3 {}", hx(&x128[..96])),
+                format!("dec 4 3 {}", hx(&[x128.clone(), vec![0u8]].concat())), format!("dec 4 3 {}", hx(&x128)), format!("x128 {}", hx(&key96)),
+                format!("dec 7 2 {}", th(&prim::b32_encode("hash", &badpad).unwrap())), format!("dec 8 2 {}", th(&prim::b32_encode("script", &toolong).unwrap())),
+                format!("dec 7 2 {}", th(&prim::b32_encode("anyprefix", &h28).unwrap())),
+                format!("enc 1 {}", hx(&ext_hi)), format!("sign 1 {} 00 01 {}", hx(&ext_hi), hx(&vec![0x11u8; 64])),
+                format!("wit 1 {} {} ~ ~", hx(&[9u8; 32]), hx(&ext_hi)), format!("wit 3 {} {} ~ ~", hx(&[9u8; 32]), hx(&leg_hi)), format!("enc 6 {}", hx(&leg_hi)),
+                format!("enc3 {} {} {} -", hexs(&pw), hexs(&salt), hexs(&nonce)),
+                format!("enc3 {} {} {} {}", hexs(&pw), hexs(&salt), hexs(&nonce), hexs(&[0x41])),
+                format!("wit 2 {} {} {} 1097911063", hx(&[9u8; 32]), hx(&key96), hx(&[0x83, 0x58, 0x1c])),
+                format!("wit 3 {} {} {} ~", hx(&[9u8; 32]), hx(&{ let mut v = vec![0x22u8; 96]; v[31] = 0x40; v }), hx(&vec![0xabu8; 30])),
+                format!("derive {} 5 {} {} {} 0 0", hx(&key96), 0x8000_0000u32 + 1852, 0x8000_0000u32 + 1815, 0x8000_0000u32),
+            ];
+            for (i, l) in lines.iter().enumerate() {
+                let tv: Vec<&str> = l.split_whitespace().collect();
+                println!("w{} {} | {}", i, compact(l), tabulate(&tv));
+            }
+        }
+        _ => { eprintln!("usage: c12 gen <dir> | run <cases> <out> | table <case tokens…> | witnesses"); std::process::exit(2); }
     }
 }
